@@ -161,6 +161,9 @@ type Prop struct {
 	Setup func(tier string)
 }
 
+// BeforeCase, if non nil, is called by the worker before each case.
+var BeforeCase func()
+
 // Registry of properties.
 var Registry = map[string]*Prop{}
 
